@@ -102,6 +102,7 @@ pub fn lex(song: &mut Song, src: &str, lineno: isize) -> Vec<Token> {
             // Upper command
             'A'..='Z' | '_' => {
                 cur.prev();
+                cur.replace_char(ch); // a full-width letter is read as its half-width form (get_word would read nothing and never advance)
                 if cur.eq("End") || cur.eq("END") { // それ移行をコンパイルしない
                     let last_comment = cur.cur2end();
                     cur.next_n(last_comment.len());
@@ -112,6 +113,7 @@ pub fn lex(song: &mut Song, src: &str, lineno: isize) -> Vec<Token> {
             },
             '#' => { // @ Macro - マクロ定義 (ex) #A={cdefg}
                 cur.prev();
+                cur.replace_char(ch); // full-width '＃' is read as '#'
                 if cur.eq("##") || cur.eq("# ") || cur.eq("#-") { // なんかみんなが使っているので一行コメントと見なす
                     cur.get_token_ch('\n');
                     continue;
